@@ -11,6 +11,7 @@ import (
 	"flag"
 	"fmt"
 	"go/ast"
+	"go/token"
 	"go/types"
 	"os"
 	"os/exec"
@@ -92,6 +93,7 @@ type loaded struct {
 	ppkg    *packages.Package
 	stubs   *interp.StubTable
 	files   map[string]string // overlay path -> real path (for native replay)
+	reload  map[token.Pos][]int
 	pkgName string
 	digest  string
 	loadS   float64
@@ -223,6 +225,41 @@ func load(dir string, workDir string) *loaded {
 		addDirectives(p, ssapkgs[k])
 	}
 	ld.stubs = st
+	// gc evaluates the calls of a `return v, f()` statement before it reads the
+	// plain variables; go/ssa loads v first.  Record such statements (in core
+	// packages) so that the interpreter re-reads v at the return, as gc does.
+	ld.reload = map[token.Pos][]int{}
+	packages.Visit(pkgs, nil, func(p *packages.Package) {
+		if !strings.HasPrefix(p.PkgPath, "github.com/projecteru2/core") {
+			return
+		}
+		for _, f := range p.Syntax {
+			ast.Inspect(f, func(n ast.Node) bool {
+				rs, ok := n.(*ast.ReturnStmt)
+				if !ok || len(rs.Results) < 2 {
+					return true
+				}
+				hasCall := false
+				for _, r := range rs.Results {
+					ast.Inspect(r, func(m ast.Node) bool {
+						if _, isCall := m.(*ast.CallExpr); isCall {
+							hasCall = true
+						}
+						return true
+					})
+				}
+				if !hasCall {
+					return true
+				}
+				for k, r := range rs.Results {
+					if _, isIdent := r.(*ast.Ident); isIdent {
+						ld.reload[rs.Pos()] = append(ld.reload[rs.Pos()], k)
+					}
+				}
+				return true
+			})
+		}
+	})
 	// digest of the package sources actually loaded from the working tree
 	h := sha256.New()
 	var srcs []string
@@ -392,6 +429,7 @@ func newSession(ld *loaded, rc RunCfg, harness, prop string, known []interp.Know
 		IntrinsicPkgs: map[string]bool{ld.pkg.Pkg.Path(): true},
 		WantSample:    rc.Samples,
 		ExtraInits:    []*ssa.Function{ld.model.Func("init")},
+		ReloadReturn:  ld.reload,
 	}
 	if hasArg {
 		s.Arg = &arg
